@@ -184,6 +184,28 @@ pub fn shapes(seed: u64, sample: usize, max_len: usize, max_m: usize, wd: &Watch
             _ => unreachable!(),
         }
     }
+    // generalised power cones with many equal exponents 1/k (geometric means): their floating-point sum misses 1 by a few
+    // ulps for most k, which the constructor's tolerance is there to accept
+    let mut run = stats.runs;
+    for k in [3usize, 5, 6, 7, 9, 10, 11, 13, 14, 17, 20] {
+        for d2 in [1usize, 2] {
+            let o = crate::gen::GenOpts { nmax: 3, ..Default::default() };
+            let mut p = crate::gen::planted_with_cones(&mut rng, &o, 2, vec![ConeSpec::GenPow(vec![1.0 / k as f64; k], d2), ConeSpec::Nonneg(1)]);
+            p.settings = json!({"max_iter": 50});
+            p.tag.push_str("+geomean");
+            let case = json!({"run": run, "problem": p});
+            wd.tick(&case);
+            let out = rec_ipm::run_ipm(run, &p, &RunOpts::default());
+            stats.runs += 1;
+            cases.push(case);
+            match (&out.result, &out.panic) {
+                (Some(r), _) => { *stats.status_hist.entry(STATUS_NAMES[r.status].to_string()).or_default() += 1; lines.extend(out.lines); }
+                (None, Some(m)) => { stats.panics += 1; lines.push(json!({"ev": "Panic", "run": run, "msg": m, "cones": format!("{:?}", p.cones)})); }
+                _ => unreachable!(),
+            }
+            run += 1;
+        }
+    }
     (lines, cases, stats)
 }
 
